@@ -26,7 +26,9 @@ META = {
                    "isomorphisms respecting edge labels (C02_edge_labels: between two residues of a match the link pattern has an "
                    "edge exactly if the residue graph has one, and then the 'linktype' labels coincide, none = none, so an unlabelled "
                    "link never matches a labelled edge nor the reverse) and satisfy vermouth's relative-order table (read declaratively for n, >, <, * and proved "
-                   "symmetric); a match contributes only if every link atom identifies exactly one atom of its residue; an "
+                   "symmetric); a match contributes only if every link atom identifies exactly one atom of its residue, candidates being the atoms "
+                   "with the link atom's name, one of its residue names and every further attribute it states (C02_atom_selection; "
+                   "attributes of a residue in the sequence count for all its atoms); an "
                    "interaction (section, atoms, version) is in the result iff a block or a matching link wrote it and it carries the "
                    "parameters of the last writer in force-field order; block interactions survive unless a link writes the same "
                    "key. The model is tied to the code by comparing interactions, replaced attributes and edges with the real "
@@ -35,10 +37,11 @@ META = {
                    ".itp files are checked on the implementation against the equivalent next-residue link."),
     'level_note': ("Trusted: Coq kernel, harness, vermouth's .ff parser and make_residue_graph (their output is model input), networkx "
                    "VF2 (its match set is compared with the model's enumeration). No axioms. Outside the model: non-edges, patterns, "
-                   "parameter effectors, atom attributes other than name and residue name."),
+                   "parameter effectors, atom removal (probed by C01's removal cases)."),
     'rule': ("cases = generated force fields (1-3 blocks, 0-5 links over 2-4 residues with +n / > / < orders, residue-name choices, "
              "replace, versions, guards, explicit edges; 30%: labelled copies of links and labelled residue edges; 10%: link families "
-             "whose atoms carry their own residue name, one per arrangement over three residues) x residue graphs of 1-7 residues (path/tree/ring, mixed names, permuted "
+             "whose atoms carry their own residue name, one per arrangement over three residues; 30%: residues carrying an attribute and copies of links that state it on one "
+             "atom, with their own parameters) x residue graphs of 1-7 residues (path/tree/ring, mixed names, permuted "
              "keys); non-trivial = at least one link applied and at least one link or window not applicable; distinct by "
              "(force-field text, graph)"),
 }
@@ -77,7 +80,8 @@ def extract_links(ff):
             else:
                 resnames = [rn]
             repl = sorted((str(k), str(v)) for k, v in d.get('replace', {}).items())
-            latoms.append({'key': str(key), 'name': d.get('atomname'), 'order': d.get('order'), 'resnames': resnames, 'replace': repl})
+            extra = sorted((str(k), str(v)) for k, v in d.items() if k not in ('atomname', 'order', 'resname', 'replace'))
+            latoms.append({'key': str(key), 'name': d.get('atomname'), 'order': d.get('order'), 'resnames': resnames, 'replace': repl, 'attrs': extra})
         linters = []
         for sec, rows in link.interactions.items():
             for r in rows:
@@ -94,7 +98,7 @@ def extract_links(ff):
 
 
 def coq_link(l):
-    atoms = "[" + "; ".join(f"Build_latom {lit(a['key'])} {lit(a['name'])} {coq_order(a['order'])} {lit(a['resnames'])} {lit(a['replace'])}"
+    atoms = "[" + "; ".join(f"Build_latom {lit(a['key'])} {lit(a['name'])} {coq_order(a['order'])} {lit(a['resnames'])} {lit(a['replace'])} {lit(a.get('attrs', []))}"
                             for a in l['atoms']) + "]"
     inters = "[" + "; ".join(f"Build_linter {lit(i['sec'])} {lit(i['atoms'])} {lit(i['params'])} {lit(i['version'])} {lit(i['meta'])}"
                              for i in l['inters']) + "]"
@@ -106,7 +110,7 @@ def coq_link(l):
 
 def coq_meta(residues, edges, elabels=()):
     nodes = "[" + "; ".join(
-        f"Build_mnode {lit(k)} {lit(resid)} [" + "; ".join(f"Build_ratom {lit(a)} {lit(n)} {lit(rn)}" for a, n, rn in atoms) + "]"
+        f"Build_mnode {lit(k)} {lit(resid)} [" + "; ".join(f"Build_ratom {lit(a)} {lit(n)} {lit(rn)} {lit(list(at))}" for a, n, rn, at in atoms) + "]"
         for k, resid, atoms in residues) + "]"
     labs = "[" + "; ".join(f"({lit(a)}, {lit(b)}, {lit(s)})" for a, b, s in elabels) + "]"
     return f"(Build_meta {nodes} {lit(edges)} {labs})"
@@ -125,10 +129,13 @@ def run_case(ff, g):
         MapToMolecule(vff).run_molecule(meta)
         before = ffgen.snapshot(meta.molecule)
         residues = []
+        key_to_i = {g['keys'][i]: i for i in range(g['nres'])}
         for n in meta.nodes:
             gph = meta.nodes[n]['graph']
+            # the further attributes of an atom are those its residue carries in the sequence (taken from the input)
+            rat = tuple(sorted((str(k), str(v)) for k, v in g.get('rattrs', {}).get(str(key_to_i[int(n)]), {}).items()))
             residues.append((int(n), int(meta.nodes[n]['resid']),
-                             [(int(a), gph.nodes[a]['atomname'], gph.nodes[a]['resname']) for a in gph.nodes]))
+                             [(int(a), gph.nodes[a]['atomname'], gph.nodes[a]['resname'], rat) for a in gph.nodes]))
         edges = [(int(a), int(b), None if meta.edges[a, b].get('linktype') is None else str(meta.edges[a, b]['linktype']))
                  for a, b in meta.edges]
         links = extract_links(vff)
@@ -144,9 +151,9 @@ def key_of(sec, r):
 def judge(ff, g, before, after, residues):
     """soundness of inter-residue interactions and completeness of next-residue bond links, recomputed independently"""
     bad = []
-    resid_of = {a: resid for _, resid, atoms in residues for a, _, _ in atoms}
-    name_of = {a: n for _, _, atoms in residues for a, n, _ in atoms}
-    rname_of = {a: rn for _, _, atoms in residues for a, _, rn in atoms}
+    resid_of = {a: resid for _, resid, atoms in residues for a, *_ in atoms}
+    name_of = {a: n for _, _, atoms in residues for a, n, *_ in atoms}
+    rname_of = {a: rn for _, _, atoms in residues for a, _, rn, *_ in atoms}
     link_rows = [(sec, r, l) for l in ff['links'] for sec, rows in l['inters'].items() for r in rows]
     bkeys = {key_of(sec, r) for sec, rows in before['inters'].items() for r in rows}
     for sec, rows in after['inters'].items():
@@ -172,7 +179,7 @@ def judge(ff, g, before, after, residues):
                 if any(p not in ('', '+') for p, _ in others):
                     continue
                 for k in range(g['nres'] - 1):
-                    if l.get('edge_labels') or g.get('elabels', {}).get(str(k)) is not None:
+                    if l.get('edge_labels') or g.get('elabels', {}).get(str(k)) is not None or any(set(at) - {'replace'} for _, at in l['atoms_attr']):
                         continue    # labelled links / labelled residue edges are judged by spec_table
                     ra, rb = g['resnames'][k], g['resnames'][k + 1]
                     applicable = ra in l['resnames'] and rb in l['resnames'] and \
@@ -227,7 +234,8 @@ def spec_table(before, residues, edges, links):
         for mu in matches:
             m = {}
             for la in link['atoms']:
-                cands = [a for a, n, rn in atoms_of[mu[la['order']]] if n == la['name'] and rn in la['resnames']]
+                cands = [a for a, n, rn, at in atoms_of[mu[la['order']]] if n == la['name'] and rn in la['resnames']
+                         and all(tuple(kv) in at for kv in la.get('attrs', []))]
                 if len(cands) != 1:
                     m = None
                     break
@@ -327,6 +335,12 @@ def run(ctx):
                 rng.shuffle(ff['links'])
             g = ffgen.label_graph(rng, g)
             ctx.feature('edge_labels')
+        if rng.random() < 0.3:
+            # residues carrying an attribute, links one of whose atoms states it (next to the plain link)
+            extra = [ffgen.attr_link(rng, l) for l in ff['links'] if rng.random() < 0.7]
+            ff = dict(ff, links=ff['links'] + [l for l in extra if l])
+            g = ffgen.attr_graph(rng, g)
+            ctx.feature('residue_attributes')
         cases.append((ff, g))
     exprs, keep = [], []
     for ff, g in cases:
